@@ -43,13 +43,13 @@ Qed.
 
 Lemma ss_right_le_left l s e : s < e -> searchsorted_right l s <= searchsorted_left l e.
 Proof.
-  intros Hse. induction l as [|y l IH]; cbn; [lia|].
+  intros Hse. induction l as [|y l IH]; cbn [searchsorted_left searchsorted_right]; [lia|].
   pose proof (ss_left_bounds l e). destruct (y <=? s) eqn:E1, (y <? e) eqn:E2; lia.
 Qed.
 
 Lemma ss_left_le_right l s : searchsorted_left l s <= searchsorted_right l s.
 Proof.
-  induction l as [|y l IH]; cbn; [lia|].
+  induction l as [|y l IH]; cbn [searchsorted_left searchsorted_right]; [lia|].
   pose proof (ss_right_bounds l s). destruct (y <=? s) eqn:E1, (y <? s) eqn:E2; lia.
 Qed.
 
@@ -57,11 +57,11 @@ Qed.
 Lemma ss_right_le_left_succ l s : StronglySorted Z.lt l ->
   searchsorted_right l s <= searchsorted_left l s + 1.
 Proof.
-  induction 1 as [|y l HS IH Hall]; cbn; [lia|].
+  induction 1 as [|y l HS IH Hall]; cbn [searchsorted_left searchsorted_right]; [lia|].
   destruct (y <=? s) eqn:E1, (y <? s) eqn:E2; try lia.
   (* y = s : every later element is > s *)
   assert (y = s) by lia. subst y.
-  destruct l as [|z l]; cbn; [lia|].
+  destruct l as [|z l]; cbn [searchsorted_left searchsorted_right]; [lia|].
   inversion Hall as [|? ? Hz _]; subst. destruct (z <=? s) eqn:E3; lia.
 Qed.
 
@@ -122,7 +122,7 @@ Proof.
 Qed.
 
 Lemma last_bin_end blk k x : nth_error blk k = Some x -> S k = length blk -> bend x = chrom_len blk.
-Proof. intros Hk Hl. unfold chrom_len. now rewrite (nth_error_last _ _ _ (0,0,0) Hk Hl). Qed.
+Proof. intros Hk Hl. unfold chrom_len. f_equal. symmetry. exact (nth_error_last _ _ _ (0,0,0) Hk Hl). Qed.
 
 Lemma tiled_end_le_len c s0 blk : Tiled c s0 blk -> forall x, In x blk -> bend x <= chrom_len blk.
 Proof.
@@ -169,7 +169,7 @@ Qed.
 Lemma chrom_offset_S blocks i blk : nth_error blocks i = Some blk ->
   chrom_offset blocks (S i) = chrom_offset blocks i + zlen blk.
 Proof.
-  intros Hi. unfold chrom_offset. rewrite (firstn_S_nth _ _ _ Hi), concat_app, zlen_app. cbn. now rewrite app_nil_r.
+  intros Hi. unfold chrom_offset. rewrite (firstn_S_nth _ _ _ Hi), concat_app, zlen_app. cbn [concat]. now rewrite app_nil_r.
 Qed.
 
 Lemma chrom_offset_0 blocks : chrom_offset blocks 0 = 0.
@@ -178,7 +178,7 @@ Proof. reflexivity. Qed.
 Lemma chrom_offset_nonneg blocks i : 0 <= chrom_offset blocks i.
 Proof. apply zlen_nonneg. Qed.
 
-Lemma concat_split blocks i blk : nth_error blocks i = Some blk ->
+Lemma concat_split {A} (blocks : list (list A)) i blk : nth_error blocks i = Some blk ->
   concat blocks = concat (firstn i blocks) ++ blk ++ concat (skipn (S i) blocks).
 Proof.
   revert i. induction blocks as [|b0 blocks IH]; intros i Hi; [destruct i; discriminate|].
@@ -246,7 +246,8 @@ Section VarPath.
   Proof.
     intros Hs. destruct blk_tiled as [Hne HT]. unfold starts.
     inversion HT as [|s1 e1 l1 Hse1 HT1]; subst; [congruence|].
-    cbn. pose proof (ss_right_bounds (map bstart l1) s). destruct (0 <=? s) eqn:E; lia.
+    cbn [map searchsorted_right]. unfold bstart at 1. cbn [fst snd].
+    pose proof (ss_right_bounds (map bstart l1) s). destruct (0 <=? s) eqn:E; lia.
   Qed.
 
   (** row k of the table belongs to chromosome i iff it lies in the block's span *)
@@ -342,3 +343,372 @@ Section VarPath.
     destruct Hb' as [|Hlast]; [lia|]. rewrite (last_bin_end _ _ _ Hx Hlast). lia.
   Qed.
 End VarPath.
+
+(* ------------------------------------------------------------ fixed-width path *)
+Lemma ideal_starts c L b n lo :
+  map bstart (map (ideal_bin c L b) (zrange lo n)) = map (fun k => k * b) (zrange lo n).
+Proof. rewrite map_map. apply map_ext. reflexivity. Qed.
+
+Lemma ss_left_mul b : 1 <= b -> forall n lo x,
+  searchsorted_left (map (fun k => k * b) (zrange lo n)) x = Z.max 0 (Z.min (Z.of_nat n) (cdiv x b - lo)).
+Proof.
+  intros Hb. induction n as [|n IH]; intros lo x.
+  - cbn. lia.
+  - rewrite zrange_cons. cbn [map searchsorted_left]. rewrite IH. unfold cdiv.
+    destruct (lo * b <? x) eqn:E; nia.
+Qed.
+
+Lemma ss_right_mul b : 1 <= b -> forall n lo x,
+  searchsorted_right (map (fun k => k * b) (zrange lo n)) x = Z.max 0 (Z.min (Z.of_nat n) (x / b + 1 - lo)).
+Proof.
+  intros Hb. induction n as [|n IH]; intros lo x.
+  - cbn. lia.
+  - rewrite zrange_cons. cbn [map searchsorted_right]. rewrite IH.
+    destruct (lo * b <=? x) eqn:E; nia.
+Qed.
+
+Lemma tiled_len_pos c s0 blk : Tiled c s0 blk -> blk <> [] -> s0 < chrom_len blk.
+Proof.
+  intros HT Hne. destruct blk as [|x blk]; [congruence|].
+  pose proof (tiled_end_le_len _ _ _ HT x (or_introl eq_refl)).
+  inversion HT; subst. unfold bend in *; cbn [snd] in *. lia.
+Qed.
+
+Section FixedPath.
+  Variable blocks : list (list bin).
+  Variable i : nat.
+  Variable blk : list bin.
+  Variable b : Z.
+  Hypothesis HV : ValidBlocks blocks.
+  Hypothesis Hi : nth_error blocks i = Some blk.
+  Hypothesis Hb : get_binsize (table blocks) = Some b.
+
+  Let off := chrom_offset blocks i.
+  Let L := chrom_len blk.
+
+  Lemma fixed_shape : 1 <= b /\ 1 <= L /\ blk = ideal_chrom (Z.of_nat i) L b.
+  Proof.
+    destruct (binsize_truthful blocks b HV Hb) as [Hb1 Hid].
+    destruct (HV i blk Hi) as [Hne HT]. pose proof (tiled_len_pos _ _ _ HT Hne).
+    repeat split; auto; [unfold L; lia|]. exact (Hid i blk Hi).
+  Qed.
+
+  Lemma fixed_starts : map bstart blk = map (fun k => k * b) (zrange 0 (Z.to_nat (cdiv L b))).
+  Proof.
+    destruct fixed_shape as (_ & _ & Hid). rewrite Hid at 1. unfold ideal_chrom. apply ideal_starts.
+  Qed.
+
+  Lemma fixed_len : zlen blk = cdiv L b.
+  Proof.
+    destruct fixed_shape as (Hb1 & HL & Hid). unfold zlen. rewrite Hid at 1. unfold ideal_chrom.
+    rewrite map_length, zrange_length. unfold cdiv. nia.
+  Qed.
+
+  (** when the table reports bin size b, integer arithmetic finds the same bins as the search *)
+  Theorem extent_paths_agree s e : 0 <= s <= e -> e <= L -> s < L ->
+    region_to_extent_fixed blocks i s e b = region_to_extent_var blocks i s e.
+  Proof.
+    intros Hse HeL HsL. rewrite (var_unfold blocks i blk Hi). unfold region_to_extent_fixed.
+    destruct fixed_shape as (Hb1 & HL & _). rewrite fixed_starts.
+    rewrite (ss_left_mul b Hb1), (ss_right_mul b Hb1). fold off. unfold cdiv. f_equal; nia.
+  Qed.
+
+  (** the upper end always agrees; the lower end differs only for the empty range at a chromosome
+      end that is a multiple of b *)
+  Lemma extent_paths_agree_hi s e : 0 <= s <= e -> e <= L ->
+    snd (region_to_extent_fixed blocks i s e b) = snd (region_to_extent_var blocks i s e).
+  Proof.
+    intros Hse HeL. rewrite (var_unfold blocks i blk Hi). unfold region_to_extent_fixed.
+    destruct fixed_shape as (Hb1 & HL & _). rewrite fixed_starts.
+    rewrite (ss_left_mul b Hb1). cbn [snd]. fold off. unfold cdiv. nia.
+  Qed.
+
+  Theorem extent_fixed_empty s : 0 <= s <= L ->
+    let '(lo, hi) := region_to_extent_fixed blocks i s s b in
+    lo <= hi <= lo + 1 /\ off <= lo /\ hi <= chrom_offset blocks (S i) /\
+    (forall k : nat, lo <= Z.of_nat k < hi ->
+       exists x, nth_error (table blocks) k = Some x /\ bchrom x = Z.of_nat i /\ bstart x < s <= bend x).
+  Proof.
+    intros Hs. unfold region_to_extent_fixed. fold off.
+    destruct fixed_shape as (Hb1 & HL & Hid). rewrite (chrom_offset_S _ _ _ Hi), fixed_len. fold off.
+    pose proof (chrom_offset_nonneg blocks i) as Hoff. fold off in Hoff.
+    assert (Hdiv : 0 <= s / b <= cdiv s b /\ cdiv s b <= s / b + 1) by (unfold cdiv; nia).
+    assert (HsL : cdiv s b <= cdiv L b) by (unfold cdiv; nia).
+    assert (Hbin : cdiv s b = s / b + 1 -> (s / b) * b < s /\ s <= Z.min ((s / b + 1) * b) L) by (unfold cdiv; nia).
+    pose proof fixed_len as Hlen. unfold zlen in Hlen.
+    remember (s / b) as q. remember (cdiv s b) as cq. remember (cdiv L b) as cL.
+    repeat split; try lia.
+    intros k Hk. set (j := Z.to_nat q).
+    assert (Hkj : k = (Z.to_nat off + j)%nat) by lia.
+    assert (Hjn : (j < Z.to_nat cL)%nat) by lia.
+    assert (Hjl : (j < length blk)%nat) by lia.
+    pose proof (nth_error_table _ _ _ j Hi Hjl) as Ht. fold off in Ht. rewrite <- Hkj in Ht.
+    assert (Hx : nth_error blk j = Some (ideal_bin (Z.of_nat i) L b (Z.of_nat j))).
+    { rewrite Hid at 1. unfold ideal_chrom. rewrite <- HeqcL. rewrite nth_error_map, (nth_error_zrange 0 _ j Hjn). reflexivity. }
+    rewrite Hx in Ht. eexists. split; [exact Ht|]. unfold ideal_bin, bchrom, bstart, bend; cbn [fst snd].
+    split; [reflexivity|]. replace (Z.of_nat j) with q by lia. apply Hbin. lia.
+  Qed.
+End FixedPath.
+
+(* ------------------------------------------------------------ both paths: Cooler.extent *)
+Theorem extent_overlap blocks i blk s e :
+  ValidBlocks blocks -> nth_error blocks i = Some blk ->
+  0 <= s < e -> e <= chrom_len blk ->
+  let '(lo, hi) := region_to_extent blocks i s e in
+  (forall k : nat, lo <= Z.of_nat k < hi <->
+     exists x, nth_error (table blocks) k = Some x /\ bchrom x = Z.of_nat i /\ bstart x < e /\ s < bend x)
+  /\ chrom_offset blocks i <= lo < hi /\ hi <= chrom_offset blocks (S i).
+Proof.
+  intros HV Hi Hse HeL. unfold region_to_extent.
+  destruct (get_binsize (table blocks)) as [b|] eqn:Hb.
+  - rewrite (extent_paths_agree blocks i blk b HV Hi Hb s e) by lia.
+    now apply (extent_var_overlap blocks i blk HV Hi).
+  - now apply (extent_var_overlap blocks i blk HV Hi).
+Qed.
+
+Theorem extent_empty blocks i blk s :
+  ValidBlocks blocks -> nth_error blocks i = Some blk ->
+  0 <= s <= chrom_len blk ->
+  let '(lo, hi) := region_to_extent blocks i s s in
+  lo <= hi <= lo + 1 /\ chrom_offset blocks i <= lo /\ hi <= chrom_offset blocks (S i) /\
+  (forall k : nat, lo <= Z.of_nat k < hi ->
+     exists x, nth_error (table blocks) k = Some x /\ bchrom x = Z.of_nat i /\ bstart x < s <= bend x).
+Proof.
+  intros HV Hi Hs. unfold region_to_extent.
+  destruct (get_binsize (table blocks)) as [b|] eqn:Hb.
+  - now apply (extent_fixed_empty blocks i blk b HV Hi Hb).
+  - now apply (extent_var_empty blocks i blk HV Hi).
+Qed.
+
+(** the fixed path is only sound because the reported size is truthful: on a table whose last bin is
+    longer (the input of the repaired defect D1) arithmetic with the common width selects a bin of the
+    NEXT chromosome; get_binsize now reports None for it *)
+Lemma extent_fixed_refuted :
+  let blocks := [[(0,0,10);(0,10,20);(0,20,35)]; [(1,0,10);(1,10,20)]] in
+  valid_blocks_b blocks = true /\
+  region_to_extent_fixed blocks 0 25 35 10 = (2, 4) /\
+  region_to_extent_var blocks 0 25 35 = (2, 3) /\
+  get_binsize (table blocks) = None.
+Proof. vm_compute. repeat split; reflexivity. Qed.
+
+(** the two paths do differ in one corner: the empty range at a chromosome end that is a multiple of b *)
+Lemma extent_paths_differ_at_end :
+  let blocks := [[(0,0,10);(0,10,20)]; [(1,0,10)]] in
+  get_binsize (table blocks) = Some 10 /\
+  region_to_extent_fixed blocks 0 20 20 10 = (2, 2) /\ region_to_extent_var blocks 0 20 20 = (1, 2).
+Proof. vm_compute. repeat split; reflexivity. Qed.
+
+(* ------------------------------------------------------------ parse_region bounds *)
+Definition dflt (d : Z) (o : option Z) : Z := match o with Some v => v | None => d end.
+
+Theorem parse_region_spec sizes c s e :
+  parse_region sizes c s e =
+  match nth_error sizes c with
+  | None => None
+  | Some L => if (0 <=? dflt 0 s) && (dflt 0 s <=? dflt L e) && (dflt L e <=? L)
+              then Some (c, dflt 0 s, dflt L e) else None
+  end.
+Proof.
+  unfold parse_region, dflt. destruct (nth_error sizes c) as [L|]; [|reflexivity].
+  destruct s as [s|], e as [e|];
+  repeat match goal with |- context [if ?b then _ else _] => destruct b eqn:? end; try reflexivity; lia.
+Qed.
+
+Corollary parse_region_sound sizes c s e c' s' e' :
+  parse_region sizes c s e = Some (c', s', e') ->
+  exists L, nth_error sizes c = Some L /\ c' = c /\ s' = dflt 0 s /\ e' = dflt L e /\ 0 <= s' <= e' /\ e' <= L.
+Proof.
+  rewrite parse_region_spec. destruct (nth_error sizes c) as [L|]; [|discriminate].
+  destruct ((0 <=? dflt 0 s) && (dflt 0 s <=? dflt L e) && (dflt L e <=? L)) eqn:E; [|discriminate].
+  intros H. injection H as <- <- <-. exists L. repeat split; lia.
+Qed.
+
+Corollary parse_region_complete sizes c s e L :
+  nth_error sizes c = Some L -> 0 <= dflt 0 s <= dflt L e -> dflt L e <= L ->
+  parse_region sizes c s e = Some (c, dflt 0 s, dflt L e).
+Proof.
+  intros Hc H1 H2. rewrite parse_region_spec, Hc.
+  destruct ((0 <=? dflt 0 s) && (dflt 0 s <=? dflt L e) && (dflt L e <=? L)) eqn:E; [reflexivity|lia].
+Qed.
+
+(* ------------------------------------------------------------ a slice selected by a predicate *)
+Lemma filter_firstn_skipn {A} (p : A -> bool) : forall (l : list A) (lo hi : nat),
+  (lo <= hi)%nat ->
+  (forall k x, nth_error l k = Some x -> (p x = true <-> (lo <= k < hi)%nat)) ->
+  filter p l = firstn (hi - lo) (skipn lo l).
+Proof.
+  induction l as [|a l IH]; intros lo hi Hle H.
+  - now rewrite skipn_nil, firstn_nil.
+  - destruct lo as [|lo].
+    + destruct hi as [|hi].
+      * cbn [Nat.sub firstn]. apply filter_none. intros x Hx. apply In_nth_error in Hx as [k Hk].
+        destruct (p x) eqn:E; [|reflexivity]. rewrite (H k x Hk) in E. lia.
+      * cbn [filter]. assert (Ha : p a = true) by (apply (H 0%nat a eq_refl); lia). rewrite Ha.
+        cbn [Nat.sub skipn firstn]. f_equal.
+        rewrite (IH 0%nat hi ltac:(lia)); [now rewrite Nat.sub_0_r|].
+        intros k x Hk. rewrite (H (S k) x Hk). lia.
+    + destruct hi as [|hi]; [lia|].
+      cbn [filter]. assert (Ha : p a = false).
+      { destruct (p a) eqn:E; [|reflexivity]. rewrite (H 0%nat a eq_refl) in E. lia. }
+      rewrite Ha. cbn [Nat.sub skipn]. apply IH; [lia|].
+      intros k x Hk. rewrite (H (S k) x Hk). lia.
+Qed.
+
+Lemma filter_slice {A} (p : A -> bool) (l : list A) (lo hi : Z) :
+  0 <= lo <= hi ->
+  (forall k x, nth_error l k = Some x -> (p x = true <-> lo <= Z.of_nat k < hi)) ->
+  slice l lo hi = filter p l.
+Proof.
+  intros Hle H. unfold slice. rewrite (filter_firstn_skipn p l (Z.to_nat lo) (Z.to_nat hi)); [f_equal; lia|lia|].
+  intros k x Hk. rewrite (H k x Hk). lia.
+Qed.
+
+(** Cooler.bins().fetch on a non-empty range returns exactly the overlapping bins of the chromosome,
+    in table order *)
+Theorem bins_fetch_overlap blocks i blk s e :
+  ValidBlocks blocks -> nth_error blocks i = Some blk ->
+  0 <= s < e -> e <= chrom_len blk ->
+  bins_fetch blocks i (Some s) (Some e) = Some (filter (overlaps_b i s e) (table blocks)).
+Proof.
+  intros HV Hi Hse HeL. unfold bins_fetch, extent, chromsizes.
+  rewrite (parse_region_complete _ i (Some s) (Some e) (chrom_len blk)); cbn [dflt]; try lia.
+  2:{ now rewrite nth_error_map, Hi. }
+  pose proof (extent_overlap blocks i blk s e HV Hi Hse HeL) as H.
+  destruct (region_to_extent blocks i s e) as [lo hi]. destruct H as (Hiff & Hlo & Hhi).
+  f_equal. apply filter_slice.
+  - pose proof (chrom_offset_nonneg blocks i). lia.
+  - intros k x Hk. rewrite (Hiff k). unfold overlaps_b. split.
+    + intros Hp. exists x. split; [exact Hk|]. lia.
+    + intros (x' & Hk' & Hc & H1 & H2). assert (x' = x) by congruence. subst x'. lia.
+Qed.
+
+(* ------------------------------------------------------------ pixels().fetch *)
+Lemma sorted_split (px : list (Z * Z)) k : StronglySorted Z.le (map fst px) ->
+  px = filter (fun p => fst p <? k) px ++ filter (fun p => negb (fst p <? k)) px.
+Proof.
+  induction px as [|a px IH]; intros HS; [reflexivity|].
+  cbn [map] in HS. inversion HS as [|? ? HS' Hall]; subst. cbn [filter].
+  destruct (fst a <? k) eqn:E; cbn [negb app].
+  - f_equal. now apply IH.
+  - rewrite (filter_none (fun p => fst p <? k) px), (filter_all (fun p => negb (fst p <? k)) px); [reflexivity| |].
+    + intros x Hx. rewrite Forall_forall in Hall. specialize (Hall (fst x) (in_map fst _ _ Hx)). lia.
+    + intros x Hx. rewrite Forall_forall in Hall. specialize (Hall (fst x) (in_map fst _ _ Hx)). lia.
+Qed.
+
+Lemma filter_filter {A} (p q : A -> bool) l : filter p (filter q l) = filter (fun x => q x && p x) l.
+Proof.
+  induction l as [|a l IH]; [reflexivity|]. cbn [filter]. destruct (q a); cbn [filter andb]; [destruct (p a)|]; now rewrite IH.
+Qed.
+
+Lemma sorted_filter (p : Z * Z -> bool) px :
+  StronglySorted Z.le (map fst px) -> StronglySorted Z.le (map fst (filter p px)).
+Proof.
+  induction px as [|a px IH]; intros HS; [constructor|].
+  cbn [map] in HS. inversion HS as [|? ? HS' Hall]; subst. cbn [filter].
+  destruct (p a); [|now apply IH]. cbn [map]. constructor; [now apply IH|].
+  rewrite Forall_forall in *. intros y Hy. apply in_map_iff in Hy as [x [<- Hx]].
+  apply filter_In in Hx as [Hx _]. apply Hall. now apply in_map.
+Qed.
+
+(** Cooler.pixels().fetch: on a pixel table sorted by bin1_id the row range
+    [bin1_offset lo, bin1_offset hi) holds exactly the pixels whose bin1_id lies in [lo, hi) *)
+Theorem pixels_fetch_rows_spec px lo hi :
+  StronglySorted Z.le (map fst px) -> lo <= hi ->
+  pixels_fetch_rows px lo hi = filter (fun p => (lo <=? fst p) && (fst p <? hi)) px.
+Proof.
+  intros HS Hle. unfold pixels_fetch_rows, bin1_offset, slice, zlen.
+  set (A := filter (fun p => fst p <? lo) px).
+  set (R := filter (fun p => negb (fst p <? lo)) px).
+  assert (Hpx : px = A ++ R) by (apply sorted_split; exact HS).
+  assert (HSR : StronglySorted Z.le (map fst R)) by (apply sorted_filter; exact HS).
+  set (B := filter (fun p => fst p <? hi) R).
+  assert (HR : R = B ++ filter (fun p => negb (fst p <? hi)) R) by (apply sorted_split; exact HSR).
+  assert (Hhi : filter (fun p => fst p <? hi) px = A ++ B).
+  { rewrite Hpx at 1. rewrite filter_app. f_equal. unfold A. rewrite filter_filter.
+    apply filter_ext. intros a. lia. }
+  rewrite Hhi, app_length.
+  replace (Z.to_nat (Z.of_nat (length A + length B) - Z.of_nat (length A))) with (length B) by lia.
+  rewrite Nat2Z.id. rewrite Hpx at 1. rewrite skipn_app, skipn_all, Nat.sub_diag. cbn [app skipn].
+  rewrite HR at 1. rewrite firstn_app, firstn_all, Nat.sub_diag. cbn [firstn]. rewrite app_nil_r.
+  unfold B, R. rewrite filter_filter. apply filter_ext. intros a. lia.
+Qed.
+
+(* ------------------------------------------------------------ bedslice / GenomeSegmentation.fetch *)
+Lemma tiled_ends_sorted c s0 blk : Tiled c s0 blk -> StronglySorted Z.le (map bend blk).
+Proof.
+  induction 1 as [|s e l Hse HT IH]; cbn [map]; constructor; auto.
+  apply Forall_forall. intros y Hy. apply in_map_iff in Hy as [x [<- Hx]].
+  pose proof (tiled_start_ge _ _ _ HT x Hx). pose proof (tiled_nonempty_width _ _ _ _ HT Hx).
+  unfold bend at 1; cbn [snd]. lia.
+Qed.
+
+Lemma tiled_skipn c s0 blk n : Tiled c s0 blk -> exists s1, Tiled c s1 (skipn n blk).
+Proof.
+  intros HT. revert s0 blk HT. induction n as [|n IH]; intros s0 blk HT; [now exists s0|].
+  destruct blk as [|x blk]; [exists s0; constructor|]. inversion HT; subst. cbn [skipn]. eauto.
+Qed.
+
+Lemma nth_error_skipn {A} (l : list A) n k : nth_error (skipn n l) k = nth_error l (n + k).
+Proof.
+  revert l. induction n as [|n IH]; intros l; [reflexivity|]. destruct l; [now destruct k|]. cbn. apply IH.
+Qed.
+
+(** bedslice returns exactly the bins of the block that overlap the range (for an empty range:
+    the bin that strictly contains the position, if any) *)
+Theorem bedslice_overlap c blk s e :
+  Tiled c 0 blk -> 0 <= s <= e -> e <= chrom_len blk ->
+  bedslice blk (chrom_len blk) s e = filter (fun x => (bstart x <? e) && (s <? bend x)) blk.
+Proof.
+  intros HT Hse HeL. unfold bedslice, bedslice_range.
+  destruct ((0 <? s) || (e <? chrom_len blk)) eqn:Hcase.
+  - set (lo := searchsorted_right (map bend blk) s).
+    set (tl := skipn (Z.to_nat lo) blk).
+    pose proof (ss_right_bounds (map bend blk) s) as Hlo. fold lo in Hlo. unfold zlen in Hlo. rewrite map_length in Hlo.
+    pose proof (ss_left_bounds (map bstart tl) e) as Hhi. unfold zlen in Hhi. rewrite map_length in Hhi.
+    apply filter_slice; [lia|].
+    intros k x Hk.
+    pose proof (ss_right_nth _ s (tiled_ends_sorted _ _ _ HT) k (bend x) ltac:(now rewrite nth_error_map, Hk)) as Hr.
+    fold lo in Hr.
+    destruct (Z.ltb_spec (Z.of_nat k) lo) as [Hlt|Hge].
+    + split; [lia|]. lia.
+    + destruct (tiled_skipn c 0 blk (Z.to_nat lo) HT) as [s1 HT1]. fold tl in HT1.
+      assert (Hk' : nth_error tl (k - Z.to_nat lo) = Some x).
+      { unfold tl. rewrite nth_error_skipn. replace (Z.to_nat lo + (k - Z.to_nat lo))%nat with k by lia. exact Hk. }
+      pose proof (ss_left_nth _ e (tiled_starts_sorted _ _ _ HT1) _ (bstart x) ltac:(now rewrite nth_error_map, Hk')) as Hl.
+      lia.
+  - (* the whole chromosome *)
+    assert (s = 0 /\ e = chrom_len blk) as [-> ->] by lia.
+    unfold slice. rewrite Z.sub_0_r. unfold zlen. rewrite Nat2Z.id. cbn [Z.to_nat skipn]. rewrite firstn_all.
+    symmetry. apply filter_all. intros x Hx.
+    pose proof (tiled_start_ge _ _ _ HT x Hx). pose proof (tiled_nonempty_width _ _ _ _ HT Hx).
+    pose proof (tiled_end_le_len _ _ _ HT x Hx). lia.
+Qed.
+
+Lemma nth_error_firstn_some {A} (l : list A) n j x :
+  nth_error (firstn n l) j = Some x -> nth_error l j = Some x /\ (j < n)%nat.
+Proof.
+  revert l j. induction n as [|n IH]; intros l j H; [destruct j; discriminate|].
+  destruct l as [|a l]; [destruct j; discriminate|]. destruct j as [|j]; cbn in *; [split; [assumption|lia]|].
+  destruct (IH _ _ H). split; [assumption|lia].
+Qed.
+
+(** on a non-empty range bedslice and the extent select the same bins *)
+Corollary bedslice_eq_extent blocks i blk s e :
+  ValidBlocks blocks -> nth_error blocks i = Some blk ->
+  0 <= s < e -> e <= chrom_len blk ->
+  Some (bedslice blk (chrom_len blk) s e) = bins_fetch blocks i (Some s) (Some e).
+Proof.
+  intros HV Hi Hse HeL. rewrite (bins_fetch_overlap blocks i blk s e HV Hi Hse HeL). f_equal.
+  destruct (HV i blk Hi) as [_ HT]. rewrite (bedslice_overlap _ _ _ _ HT) by lia.
+  (* filter over the table = filter over the block *)
+  unfold table. rewrite (concat_split _ _ _ Hi), !filter_app.
+  rewrite (filter_none (overlaps_b i s e) (concat (firstn i blocks))), (filter_none (overlaps_b i s e) (concat (skipn (S i) blocks))).
+  - rewrite app_nil_r. cbn [app]. apply filter_ext_in. intros x Hx. unfold overlaps_b.
+    rewrite (tiled_chrom _ _ _ _ HT Hx), Z.eqb_refl. reflexivity.
+  - intros x Hx. apply in_concat in Hx as [b0 [Hb0 Hx]]. apply In_nth_error in Hb0 as [j Hj].
+    rewrite nth_error_skipn in Hj. destruct (HV _ _ Hj) as [_ HT'].
+    unfold overlaps_b. rewrite (tiled_chrom _ _ _ _ HT' Hx). lia.
+  - intros x Hx. apply in_concat in Hx as [b0 [Hb0 Hx]]. apply In_nth_error in Hb0 as [j Hj].
+    apply nth_error_firstn_some in Hj as [Hj Hjl].
+    destruct (HV _ _ Hj) as [_ HT']. unfold overlaps_b. rewrite (tiled_chrom _ _ _ _ HT' Hx). lia.
+Qed.
